@@ -12,6 +12,7 @@
 
 // @module streams_manager
 // @sizes sm_proofs: m1=quick m2=quick m4=quick
+// @sizes sm_sync_proofs: s1=thorough s2=thorough
 #[allow(unused_imports)] use super::*;
 #[allow(unused_imports)] use crate::ogre_std::ogre_queues::atomic::atomic_move::verif_hooks::RingModel;
 use std::task::{RawWaker, RawWakerVTable};
@@ -132,6 +133,9 @@ pub(crate) mod proofs {
     use super::*;
     /// `_mm_pause` is not modelled by Kani; a spin hint has no effect on program state
     pub(crate) fn noop() {}
+    /// insertion sort: the stub of `<[T]>::sort_unstable` in the harness of the REAL sync_vacant_and_used_streams (same contract: a sorted permutation; CBMC does
+    /// not get through std's pattern-defeating quicksort in reasonable time)
+    pub(crate) fn simple_sort<T: Ord>(v: &mut [T]) { let n = v.len(); let mut i = 1; while i < n { let mut j = i; while j > 0 && v[j-1] > v[j] { v.swap(j-1, j); j -= 1; } i += 1; } }
 
     pub(crate) fn any_sm_state<const M: usize>() -> SmState<M> {
         let s = SmState::<M> { live: kani::any(), order: kani::any(), keep: kani::any(), parked: kani::any(), v_origin: kani::any() };
@@ -309,5 +313,30 @@ pub(crate) mod proofs {
         m1: 1, 4;
         m2: 2, 5;
         m4: 4, 7;
+    }
+
+    // the REAL sync_vacant_and_used_streams (Vec::concat + the three rebuilding loops; sort_unstable stubbed by an insertion sort) from an arbitrary Inv_SM state whose
+    // live list was scrambled: it must be rebuilt from the vacant ids alone. Back end V proves the same contract for every MAX_STREAMS but cannot follow
+    // changes of the function's SHAPE (its proof hangs on three loop invariants); this harness can -- at MAX_STREAMS 1 and 2 only (4: CBMC runs out of memory)
+    // @group sm_sync_proofs
+    macro_rules! sm_sync_proofs { ($($modname:ident: $m:expr, $unw:expr;)*) => { $( mod $modname {
+        use super::*;
+        const M: usize = $m;
+        // @props C10 C03 C06 C07
+        #[kani::proof] #[kani::unwind($unw)] #[kani::stub(std::hint::spin_loop, noop)]
+        #[kani::stub(<[u32]>::sort_unstable, simple_sort)]
+        fn sync_vacant_and_used_streams_real() {
+            let s = any_sm_state::<M>();
+            let m = manager_in_state(&s);
+            { let used = unsafe { &mut **m.used_streams.get() }; *used = kani::any(); }
+            m.sync_vacant_and_used_streams();
+            assert!(arr_eq(&used_of(&m), &s.used_list()),                         "sync: used list == ascending complement of the vacant ids, u32::MAX padded");
+            assert!(locks_free(&m),                                               "sync: no lock left held");
+            kani::cover!(true, "end of harness reachable (vacuity guard)");
+        }
+    } )* } }
+    sm_sync_proofs! {
+        s1: 1, 4;
+        s2: 2, 5;
     }
 }
